@@ -63,7 +63,7 @@ def cases(draw, tier="quick"):
     P["ops"] = ops
     # an aged session: that many generations were used up (loss, reconvergence) before the generated schedule starts,
     # so sequence numbers and generation counters are past their first decade
-    P["pre_generations"] = draw(st.sampled_from([0, 0, 0, 0, 3, 6]))
+    P["pre_generations"] = draw(st.sampled_from([0, 0, 0, 0, 0, 0, 3, 6, 12]))
     if P["pre_generations"]:
         P["dilate_at"] = ["start", "start"]
     n = draw(st.integers(30, 400))
